@@ -815,6 +815,12 @@ Proof.
   - intros H. exists o. split; [exact H|]. destruct (obs_eq_dec o o); [reflexivity|congruence].
 Qed.
 
+Lemma accept_schedule max interval fs o :
+  accept max interval fs o = true ->
+  exists ls s, run (init max) ls = Some s /\ returned s = Some (o_res o) /\
+               started s = List.length (o_starts o).
+Proof. intros H. apply accept_In in H. eapply explore_schedule. exact H. Qed.
+
 Lemma accept_sound max interval fs o :
   accept max interval fs o = true -> PropObs max fs (o_starts o) (o_res o) (o_end o).
 Proof. intros H. apply accept_In in H. apply explore_sound in H. exact H. Qed.
@@ -967,4 +973,269 @@ Lemma accept_sound_bool max interval fs o :
   accept max interval fs o = true -> prop_obs max fs o = true.
 Proof.
   intros H. apply accept_sound in H. destruct o as [sts r e]. apply prop_obs_spec. exact H.
+Qed.
+
+(* ---------------- Layer B: gate and shared plan ---------------- *)
+
+Lemma brun_snoc b a l :
+  brun b (a ++ [l]) = match brun b a with Some b' => bstep b' l | None => None end.
+Proof.
+  revert b; induction a as [|x a IH]; intros b; cbn [app brun].
+  - destruct (bstep b l); reflexivity.
+  - destruct (bstep b x); [apply IH|reflexivity].
+Qed.
+
+Lemma proj_snoc ls l : proj (ls ++ [l]) = proj ls ++ proj [l].
+Proof. unfold proj. apply flat_map_app. Qed.
+
+Lemma proj_snoc_timer ls : proj (ls ++ [BTimer]) = proj ls ++ [Timer].
+Proof. rewrite proj_snoc. reflexivity. Qed.
+Lemma proj_snoc_complete ls f o : proj (ls ++ [BComplete f o]) = proj ls ++ [Complete f o].
+Proof. rewrite proj_snoc. reflexivity. Qed.
+Lemma proj_snoc_draw ls f : proj (ls ++ [BDraw f]) = proj ls.
+Proof. rewrite proj_snoc. cbn. apply app_nil_r. Qed.
+
+Definition single_shape (s : state) (ls : list label) : Prop :=
+  (s = single_init /\ ls = []) \/
+  (exists o, ls = [Complete 0 o] /\
+             s = mkState 0 [] Fired None 1 (Some (match o with Some r => r | None => Err EmptyPlan end))).
+
+Record BInv (c : config) (pl : list N) (bls : list blabel) (b : bstate) : Prop := mkBInv {
+  b_mode : speculative b = match gate c with Some _ => true | None => false end;
+  b_spec : forall max, gate c = Some max -> run (init max) (proj bls) = Some (core b);
+  b_single : gate c = None -> single_shape (core b) (proj bls);
+  b_plan : pl = rev (drawn (draws b)) ++ plan b;
+  b_end : forall f, In (f, None) (draws b) -> plan b = [];
+  b_ids : forall d, In d (draws b) -> fst d < started (core b)
+}.
+
+Lemma binv_init c pl : BInv c pl [] (binit c pl).
+Proof.
+  unfold binit. destruct (gate c) as [max|] eqn:Hg; constructor; cbn; try reflexivity; try tauto; try discriminate.
+  - rewrite Hg. reflexivity.
+  - intros m Hm. rewrite Hg in Hm. inversion Hm; subst. reflexivity.
+  - intros Hn. congruence.
+  - rewrite Hg. reflexivity.
+  - intros m Hm. congruence.
+  - intros _. left. auto.
+Qed.
+
+Lemma running_lt_started c pl bls b f :
+  BInv c pl bls b -> In f (running (core b)) -> f < started (core b).
+Proof.
+  intros B Hf. destruct (gate c) as [max|] eqn:Hg.
+  - apply (inv_lt _ _ _ (inv_reachable _ _ _ (b_spec _ _ _ _ B max Hg))). exact Hf.
+  - destruct (b_single _ _ _ _ B Hg) as [[Hs _]|(o & _ & Hs)]; rewrite Hs in *; cbn in *; [|destruct Hf].
+    destruct Hf as [<-|[]]. lia.
+Qed.
+
+Lemma step_started_mono s l s' : step s l = Some s' -> started s <= started s'.
+Proof.
+  unfold step. destruct (returned s); [discriminate|]. destruct l as [|f o].
+  - unfold on_timer. destruct (sleep s); [|discriminate].
+    destruct (retries s); intros H; inversion H; subst; cbn; lia.
+  - unfold on_complete. destruct (mem f (running s)); [|discriminate].
+    assert (Hfc : forall m, started (finish_check m) = started m).
+    { intros m. unfold finish_check. destruct (running m); [destruct (retries m)|]; reflexivity. }
+    destruct o as [r|]; [destruct (can_be_ignored r)|]; intros H; inversion H; subst;
+      rewrite ?Hfc; cbn; lia.
+Qed.
+
+Lemma binv_step c pl bls b l b' :
+  BInv c pl bls b -> bstep b l = Some b' -> BInv c pl (bls ++ [l]) b'.
+Proof.
+  intros B H. pose proof B as [Bm Bs Bsi Bp Be Bi].
+  destruct l as [|f|f o]; cbn [bstep] in H.
+  - (* timer *)
+    destruct (speculative b) eqn:Hsp; [|discriminate].
+    destruct (step (core b) Timer) as [s'|] eqn:Hs; [|discriminate]. inversion H; subst b'; clear H.
+    constructor; cbn [speculative core plan draws]; auto.
+    + intros max Hg. rewrite proj_snoc_timer, run_snoc, (Bs _ Hg). exact Hs.
+    + intros Hg. rewrite Hg in Bm. congruence.
+    + intros d Hd. specialize (Bi d Hd). apply step_started_mono in Hs. lia.
+  - (* a fiber asks the shared plan for its next target *)
+    destruct (returned (core b)) eqn:Hret; [discriminate|].
+    destruct (mem f (running (core b)) && negb (saw_end f (draws b))) eqn:Hc; [|discriminate].
+    apply andb_true_iff in Hc. destruct Hc as [Hmem _]. apply mem_In in Hmem.
+    pose proof (running_lt_started _ _ _ _ _ B Hmem) as Hlt.
+    pose proof (proj_snoc_draw bls f) as Hpr.
+    destruct (plan b) as [|t rest] eqn:Hpl; inversion H; subst b'; clear H;
+      constructor; cbn [speculative core plan draws]; rewrite ?Hpr; auto.
+    + intros d [<-|Hd]; [exact Hlt|apply Bi; exact Hd].
+    + rewrite Bp. cbn [drawn flat_map snd app rev]. rewrite <- app_assoc. reflexivity.
+    + intros f0 [Hx|Hin]; [discriminate|]. specialize (Be _ Hin). discriminate.
+    + intros d [<-|Hd]; [exact Hlt|apply Bi; exact Hd].
+  - (* a fiber yields *)
+    match type of H with (if ?c then _ else _) = _ => destruct c; [|discriminate] end.
+    destruct (speculative b) eqn:Hsp.
+    + destruct (step (core b) (Complete f o)) as [s'|] eqn:Hs; [|discriminate].
+      inversion H; subst b'; clear H.
+      constructor; cbn [speculative core plan draws]; auto.
+      * intros max Hg. rewrite proj_snoc_complete, run_snoc, (Bs _ Hg). exact Hs.
+      * intros Hg. rewrite Hg in Bm. congruence.
+      * intros d Hd. specialize (Bi d Hd). apply step_started_mono in Hs. lia.
+    + destruct (single_complete (core b) f o) as [s'|] eqn:Hs; [|discriminate].
+      inversion H; subst b'; clear H.
+      assert (Hg : gate c = None) by (destruct (gate c); [congruence|reflexivity]).
+      unfold single_complete in Hs. destruct (returned (core b)) eqn:Hret; [discriminate|].
+      destruct (mem f (running (core b))) eqn:Hmem; [|discriminate]. apply mem_In in Hmem.
+      destruct (Bsi Hg) as [[Hc Hp]|(o' & _ & Hc)]; rewrite Hc in *; cbn in Hmem, Hret; [|destruct Hmem].
+      destruct Hmem as [<-|[]]. inversion Hs; subst s'; clear Hs.
+      constructor; cbn [speculative core plan draws]; auto.
+      * intros max Hm. congruence.
+      * intros _. right. exists o. rewrite proj_snoc_complete, Hp. split; reflexivity.
+Qed.
+
+Theorem binv_reachable c pl bls b : brun (binit c pl) bls = Some b -> BInv c pl bls b.
+Proof.
+  revert b. induction bls as [|l bls IH] using rev_ind; intros b H.
+  - inversion H; subst. apply binv_init.
+  - rewrite brun_snoc in H. destruct (brun (binit c pl) bls) as [b0|] eqn:H0; [|discriminate].
+    eapply binv_step; [apply IH; reflexivity|exact H].
+Qed.
+
+Lemma latest_target_length f ds : List.length (latest_target f ds) <= 1.
+Proof. unfold latest_target. destruct (find _ ds) as [[g [t|]]|]; cbn; lia. Qed.
+
+Lemma latest_target_In f ds t : In t (latest_target f ds) -> In (f, Some t) ds.
+Proof.
+  unfold latest_target. destruct (find (fun d => fst d =? f) ds) as [[g [t'|]]|] eqn:Hf;
+    [|intros []|intros []].
+  intros [<-|[]]. apply find_some in Hf. destruct Hf as [Hin He]. cbn in He.
+  apply Nat.eqb_eq in He. subst g. exact Hin.
+Qed.
+
+Lemma in_flight_length b : List.length (in_flight b) <= List.length (running (core b)).
+Proof.
+  unfold in_flight. induction (running (core b)) as [|f l IH]; [apply le_n|].
+  cbn [flat_map]. rewrite app_length. pose proof (latest_target_length f (draws b)). cbn [List.length]. lia.
+Qed.
+
+Lemma In_drawn f t ds : In (f, Some t) ds -> In t (drawn ds).
+Proof.
+  intros H. unfold drawn. apply in_flat_map. exists (f, Some t). split; [exact H|left; reflexivity].
+Qed.
+
+Lemma drawn_owner ds : NoDup (drawn ds) ->
+  forall f1 f2 t, In (f1, Some t) ds -> In (f2, Some t) ds -> f1 = f2.
+Proof.
+  induction ds as [|[g [t'|]] ds IH]; intros Hnd f1 f2 t H1 H2.
+  - destruct H1.
+  - cbn [drawn flat_map snd app] in Hnd. inversion Hnd as [|? ? Hni Hnd']; subst.
+    fold (drawn ds) in *.
+    destruct H1 as [H1|H1]; destruct H2 as [H2|H2].
+    + congruence.
+    + inversion H1; subst. exfalso. apply Hni. eapply In_drawn. exact H2.
+    + inversion H2; subst. exfalso. apply Hni. eapply In_drawn. exact H1.
+    + eapply IH; eassumption.
+  - cbn [drawn flat_map snd app] in Hnd. fold (drawn ds) in *.
+    destruct H1 as [H1|H1]; [discriminate|]. destruct H2 as [H2|H2]; [discriminate|].
+    eapply IH; eassumption.
+Qed.
+
+Lemma NoDup_flat_map_singletons {A B} (g : A -> list B) l :
+  NoDup l -> (forall a, List.length (g a) <= 1) ->
+  (forall a1 a2 x, In a1 l -> In a2 l -> In x (g a1) -> In x (g a2) -> a1 = a2) ->
+  NoDup (flat_map g l).
+Proof.
+  induction l as [|a l IH]; intros Hnd Hlen Hinj; cbn [flat_map]; [constructor|].
+  inversion Hnd as [|? ? Ha Hnd']; subst.
+  assert (IHl : NoDup (flat_map g l)).
+  { apply IH; auto. intros a1 a2 x H1 H2. apply Hinj; right; assumption. }
+  specialize (Hlen a). destruct (g a) as [|x [|y r]] eqn:Hg; cbn [app]; [exact IHl| |cbn in Hlen; lia].
+  constructor; [|exact IHl]. intros Hin. apply in_flat_map in Hin. destruct Hin as (a' & Ha' & Hx).
+  assert (a = a').
+  { apply (Hinj a a' x); [left; reflexivity|right; exact Ha'|rewrite Hg; left; reflexivity|exact Hx]. }
+  subst a'. exact (Ha Ha').
+Qed.
+
+Lemma NoDup_app_l {A} (l m : list A) : NoDup (l ++ m) -> NoDup l.
+Proof.
+  induction l as [|x l IH]; cbn [app]; intros H; [constructor|].
+  inversion H as [|? ? Hx Hnd]; subst. constructor; [|apply IH; exact Hnd].
+  intros Hin. apply Hx. apply in_or_app. left; exact Hin.
+Qed.
+
+(* the speculative arm is `execute`: its schedule is a schedule of Layer A *)
+Lemma gate_open c pl bls b max :
+  gate c = Some max -> brun (binit c pl) bls = Some b ->
+  run (init max) (proj bls) = Some (core b) /\ List.length (in_flight b) <= 1 + max.
+Proof.
+  intros Hg H. pose proof (binv_reachable _ _ _ _ H) as B.
+  pose proof (b_spec _ _ _ _ B _ Hg) as Hr. split; [exact Hr|].
+  pose proof (inv_reachable _ _ _ Hr) as I. pose proof (in_flight_length b).
+  pose proof (inv_count _ _ _ I). pose proof (inv_bound _ _ _ I). lia.
+Qed.
+
+(* the gate is closed: one fiber for ever, every target is drawn by it, at most one target in
+   flight, and the result is that fiber's (or EmptyPlan) *)
+Lemma gate_closed c pl bls b :
+  gate c = None -> brun (binit c pl) bls = Some b ->
+  started (core b) = 1 /\ (forall f, In f (running (core b)) -> f = 0) /\
+  (forall d, In d (draws b) -> fst d = 0) /\
+  List.length (in_flight b) <= 1 /\
+  returned (core b) = spec_returned 0 1 (completions (proj bls)).
+Proof.
+  intros Hg H. pose proof (binv_reachable _ _ _ _ H) as B.
+  pose proof (b_ids _ _ _ _ B) as Hids. pose proof (in_flight_length b) as Hlen.
+  destruct (b_single _ _ _ _ B Hg) as [[Hc Hp]|(o & Hp & Hc)]; rewrite Hc in *; rewrite Hp; cbn in *.
+  - split; [reflexivity|]. split; [intros f [<-|[]]; reflexivity|].
+    split; [intros d Hd; specialize (Hids d Hd); lia|]. split; [exact Hlen|reflexivity].
+  - split; [reflexivity|]. split; [intros f []|].
+    split; [intros d Hd; specialize (Hids d Hd); lia|]. split; [lia|].
+    unfold spec_returned. cbn [first_real List.length existsb].
+    destruct o as [r|]; [|reflexivity].
+    destruct (is_real (Some r)) eqn:Hr; [reflexivity|]. cbn.
+    rewrite is_real_ignorable_exhausted in Hr. cbn [is_exhausted negb] in Hr. rewrite andb_true_r in Hr.
+    apply negb_false_iff in Hr. unfold last_ignorable. cbn. rewrite Hr. reflexivity.
+Qed.
+
+(* the shared plan: what has been handed out, in order, followed by what is left, is the plan *)
+Lemma plan_conservation c pl bls b :
+  brun (binit c pl) bls = Some b -> pl = rev (drawn (draws b)) ++ plan b.
+Proof. intros H. apply (b_plan _ _ _ _ (binv_reachable _ _ _ _ H)). Qed.
+
+Lemma distinct_targets c pl bls b :
+  NoDup pl -> brun (binit c pl) bls = Some b ->
+  NoDup (drawn (draws b)) /\
+  (forall f1 f2 t, In (f1, Some t) (draws b) -> In (f2, Some t) (draws b) -> f1 = f2) /\
+  NoDup (in_flight b).
+Proof.
+  intros Hnd H. pose proof (binv_reachable _ _ _ _ H) as B.
+  rewrite (b_plan _ _ _ _ B) in Hnd. apply NoDup_app_l in Hnd.
+  apply NoDup_rev in Hnd. rewrite rev_involutive in Hnd.
+  pose proof (drawn_owner _ Hnd) as Hown. split; [exact Hnd|]. split; [exact Hown|].
+  unfold in_flight. apply NoDup_flat_map_singletons.
+  - destruct (gate c) as [max|] eqn:Hg.
+    + apply (inv_nodup _ _ _ (inv_reachable _ _ _ (b_spec _ _ _ _ B _ Hg))).
+    + destruct (b_single _ _ _ _ B Hg) as [[Hc _]|(o & _ & Hc)]; rewrite Hc; cbn; repeat constructor. intros [].
+  - intros f. apply latest_target_length.
+  - intros f1 f2 t _ _ H1 H2. apply latest_target_In in H1. apply latest_target_In in H2.
+    eapply Hown; eassumption.
+Qed.
+
+(* a fiber can yield None only when the shared plan is empty: stopping further executions on
+   None leaves no target unused *)
+Lemma exhausted_sound c pl bls b f b' :
+  brun (binit c pl) bls = Some b -> bstep b (BComplete f None) = Some b' ->
+  plan b = [] /\ plan b' = [].
+Proof.
+  intros H Hs. pose proof (binv_reachable _ _ _ _ H) as B. cbn [bstep] in Hs.
+  destruct (saw_end f (draws b) && negb (drew_some f (draws b))) eqn:Hc; [|discriminate].
+  apply andb_true_iff in Hc. destruct Hc as [Hse _].
+  unfold saw_end in Hse. apply existsb_exists in Hse. destruct Hse as ([g [t|]] & Hin & Hd); cbn in Hd.
+  - rewrite andb_false_r in Hd. discriminate.
+  - rewrite andb_true_r in Hd. apply Nat.eqb_eq in Hd. subst g.
+    pose proof (b_end _ _ _ _ B _ Hin) as Hpl. split; [exact Hpl|].
+    destruct (if speculative b then step (core b) (Complete f None) else single_complete (core b) f None);
+      inversion Hs; subst b'. exact Hpl.
+Qed.
+
+Lemma gate_cases c :
+  gate c = None <->
+  (is_idempotent c = false \/ metrics_and_policy c = None \/ metrics_and_policy c = Some None).
+Proof.
+  unfold gate. destruct (metrics_and_policy c) as [[m|]|]; destruct (is_idempotent c); split;
+    intros H; try discriminate; try reflexivity; auto.
+  destruct H as [H|[H|H]]; discriminate.
 Qed.
